@@ -26,6 +26,10 @@ prog!(m2, P2, A2, u16, 12, 0xBEEFu16);
 prog!(m4, P4, A4, u32, 14, 0xDEADBEEFu32);
 prog!(m8, P8, A8, [u8; 8], 18, [1, 2, 3, 4, 5, 6, 7, 8]);
 prog!(m16, P16, A16, [u8; 16], 26, [16, 15, 14, 13, 12, 11, 10, 9, 8, 7, 6, 5, 4, 3, 2, 1]);
+// account types whose discriminant IS the all-0xFF pattern written by close_account
+prog!(m1f, P1F, A1F, u8, 31, 0xFFu8);
+prog!(m2f, P2F, A2F, u16, 32, 0xFFFFu16);
+prog!(m8f, P8F, A8F, [u8; 8], 38, [255, 255, 255, 255, 255, 255, 255, 255]);
 
 fn tag<T>(r: std::result::Result<Result<T>, ()>, out: &mut Vec<i128>) {
     match r {
@@ -93,8 +97,13 @@ fn main() {
     let cases = read_cases(&args[1]);
     let mut o = Out::new();
     for (id, c) in &cases {
+        let w = c[0] as usize;
+        let all_ff = w > 0 && c.len() > w && c[1..1 + w].iter().all(|b| *b == 255);
         let obs = match c[0] {
             0 => run::<A0>(c),
+            1 if all_ff => run::<A1F>(c),
+            2 if all_ff => run::<A2F>(c),
+            8 if all_ff => run::<A8F>(c),
             1 => run::<A1>(c),
             2 => run::<A2>(c),
             4 => run::<A4>(c),
